@@ -15,7 +15,7 @@ def run(prop, tier):
     v = Verdict("C15", tier, "model_checking")
     sd = seed()
     t = TIERS[tier]
-    consts = dict(MaxOps=t["MaxOps"], Seeds={1, 2, 3}, EmitCases=True, EmitMod=t["EmitMod"], EmitRes=sd % t["EmitMod"])
+    consts = dict(MaxOps=t["MaxOps"], Seeds={1, 2, 3, 4}, EmitCases=True, EmitMod=t["EmitMod"], EmitRes=sd % t["EmitMod"])
     res = tlc.run("Rewrites", tlc.make_cfg(consts, invariants=["Preserves", "BinsPartition", "ConstraintsPreserved", "WidthsPreserved", "Emit"]), workers=16, timeout=7200)
     if not res.ok:
         raise Machinery("Rewrites.tla: a rewrite does not preserve the likelihood in the model:\n" + res.tail[-3000:])
@@ -44,7 +44,7 @@ def run(prop, tier):
                       traces_validated_against_impl=total, inference_comparisons=compared, discarded_insensitive_or_failed=discarded,
                       largest_deviation_seen=maxdev, evaluations=total, distinct_nontrivial=nontriv,
                       rule=("all compositions of <= MaxOps rewrites (permute every list, rename parameter/channel/sample, add zero sample, add null "
-                            "histosys/normsys, split channel, merge samples with identical modifiers, rescale signal by 2 or 1/2) from 3 seed workspaces with "
+                            "histosys/normsys, split channel, merge samples with identical modifiers, rescale signal by 2 or 1/2) from 4 seed workspaces with "
                             "nuisances of several types; TLC proves Preserves (bin-by-bin rates at corresponding points), BinsPartition, "
                             "ConstraintsPreserved for every state; a seeded 1/EmitMod of the rewritten workspaces is built for real and mle.fit, qmu_tilde, "
                             "hypotest(return_expected_set) (thorough: upper_limit, minuit, pytorch, jax) compared with the original; "
